@@ -1075,6 +1075,30 @@ mod vh_popen {
         }
     }
 
+    /// A working directory containing NUL is refused by std before any system call
+    /// (an error without errno): the child must still report and exit without allocating.
+    #[kani::proof]
+    #[kani::stub(get_standard_stream, gss)]
+    #[kani::stub(crate::posix::fcntl, crate::mk::fcntl_model)]
+    #[kani::stub(std::alloc::alloc, obs_alloc)]
+    #[kani::stub(std::alloc::alloc_zeroed, obs_alloc_zeroed)]
+    #[kani::stub(std::alloc::realloc, obs_realloc)]
+    fn h_alloc_nulcwd() {
+        mk::link_model();
+        unsafe {
+            child_role_plain();
+            mp::EXPECT_STD_REFUSAL = true;
+            let config = PopenConfig {
+                cwd: Some(OsString::from_vec(vec![b'a', 0, b'b'])),
+                ..Default::default()
+            };
+            let res = Popen::create(&["/p"], config);
+            vcheck!(C07, !mp::IN_CHILD, "C07/child-never-returns: the forked child returned from Popen::create");
+            vcheck!(C17, !mp::IN_CHILD, "C17/child-never-returns: the forked child returned from Popen::create (it would run the caller's code)");
+            std::mem::forget(res);
+        }
+    }
+
     /// Child role with the observer on: success path and every failing step.
     #[kani::proof]
     #[kani::stub(get_standard_stream, gss)]
@@ -1198,4 +1222,22 @@ mod vh_popen {
     exe_override_harness!(h_exe_override_sb, true, false);
     exe_override_harness!(h_exe_override_bs, false, true);
     exe_override_harness!(h_exe_override_bb, false, false);
+
+    /// One operation, then drop: whatever was done with the handle before, a
+    /// non-detached Popen leaves no unreaped child behind when it goes away.
+    #[kani::proof]
+    fn h_life_op_drop() {
+        mk::link_model();
+        unsafe {
+            let mut l = any_life_state();
+            let op: u8 = kani::any();
+            kani::assume(op <= 7 && op != 6);
+            life_op(&mut l, op);
+            let detached = l.p.detached;
+            let Life { p, .. } = l;
+            drop(p);
+            vcheck!(C12, detached || mp::KIDS[0].st == mp::KidSt::Reaped, "C12/drop-reaps: after an operation on the handle, dropping the non-detached Popen left its child unreaped (zombie)");
+            kani::cover!(op == 5, "COVER/kill-then-drop");
+        }
+    }
 }
